@@ -132,6 +132,43 @@ func c02SameColumn(a, b interface{}, va, vb []bool, rows int) bool {
 // count, the column types, the values and the null positions agree.
 func VerifC02Elem() {
 	data, rows := c02Payload(zz.Param("first", "none"), zz.ParamInt("elem_bytes", 2))
+	c02Compare(data, rows)
+}
+
+// VerifC02Shape: three columns whose lengths are chosen independently from 0..2 (so empty
+// columns next to populated ones, all-empty payloads and ordinary length mismatches are
+// all in the space); the elements of the last column are one symbolic byte each.
+func VerifC02Shape() {
+	b := []byte{0x82, 0xa1, 'm', 0xa3, 'c', 'p', 'u', 0xa7, 'c', 'o', 'l', 'u', 'm', 'n', 's', 0x83, 0xa4, 't', 'i', 'm', 'e'}
+	lt := zz.Choice("time_len", 3)
+	b = append(b, byte(0x90+lt))
+	for i := 0; i < lt; i++ {
+		b = append(b, 0xd3, 0x00, 0x06, 0x0a, 0x24, 0x18, 0x1e, 0x40, byte(i))
+	}
+	lw := zz.Choice("w_len", 3)
+	b = append(b, 0xa1, 'w', byte(0x90+lw))
+	for i := 0; i < lw; i++ {
+		b = append(b, 0x07)
+	}
+	lv := zz.Choice("v_len", 3)
+	b = append(b, 0xa1, 'v', byte(0x90+lv))
+	if lv > 0 {
+		elems := zz.Bytes("v_elems", lv)
+		for _, c := range elems {
+			zz.Assume(!(c >= 0xc7 && c <= 0xc9) && !(c >= 0xd4 && c <= 0xd8))
+			// a 16/32-bit length header at the end of the body reads past it: both
+			// decoders fail on EOF; kept out only because the length is symbolic
+			zz.Assume(c != 0xc5 && c != 0xc6 && c != 0xda && c != 0xdb && !(c >= 0xdc && c <= 0xdf))
+		}
+		b = append(b, elems...)
+	}
+	if lt != lw || lw != lv {
+		zz.Reach("unequal-lengths")
+	}
+	c02Compare(b, -1)
+}
+
+func c02Compare(data []byte, rows int) {
 	typed := NewMessagePackDecoder(zerolog.Nop())
 	typed.SetTypedDecodeEnabled(true)
 	generic := NewMessagePackDecoder(zerolog.Nop())
@@ -168,7 +205,10 @@ func VerifC02Elem() {
 	}
 	zz.Assert(ok1 == ok2, "turning the typed fast path on or off changes whether the write is accepted")
 	if ok1 && ok2 {
-		zz.Assert(zz.EqStr(tm, gm) && tn == gn && tn == rows, "measurement or row count differs between the typed and the generic path")
+		zz.Assert(zz.EqStr(tm, gm) && tn == gn && (rows < 0 || tn == rows), "measurement or row count differs between the typed and the generic path")
+		if rows < 0 {
+			rows = tn
+		}
 		zz.Assert(len(tb.Data) == len(gb.Data), "the typed and the generic path store different columns")
 		for name, col := range tb.Data {
 			other, has := gb.Data[name]
